@@ -546,3 +546,165 @@ def _(c):
     c.may_raise("AmbiguousMatchError", ensures=lambda x: unchanged_lists(x), props=("C09", "C13"))
     c.may_raise("Exception", ensures=None, name="callback raises")
     c.ensures("tree well-formed afterwards", lambda x: wf1(x))
+
+
+# ------------------------------------------------------------------ set_data / rename (C02 C03 C04 C13)
+@contract(NQ + "set_data", props=("C01", "C02", "C03", "C04", "C13"))
+def _(c):
+    c.param("self", "node").param("data", "none", "data").param("data_id", "none", "id").param("with_clones", "none", "true", "false")
+    c.families = ("plain",)
+    c.prune = True  # correlated branch conditions: infeasible paths are cut at every `if`
+    c.result_tag = "none"
+    c.modifies("_data", "_data_id", "ddom", "dlst", "dcard", "llen", "litem", "lalloc", "cpos")
+    c.requires("wf, self is a member", lambda x: And(wf0(x), self_member(x)))
+
+    def new_data(x):
+        """(changes?, value)"""
+        if x.a.tag("data") == "none":
+            return z3.BoolVal(False), None
+        d = x.a.data
+        same = If(Or(L.v_is_str(d), L.v_is_int(d), L.v_is_str(x.h0._data(x.a.self)), L.v_is_int(x.h0._data(x.a.self))), L.v_same(d, x.h0._data(x.a.self)), d == x.h0._data(x.a.self))
+        return Not(same), d
+
+    def new_id(x):
+        """(changes?, value): explicit id, else calc(data) when the data changes"""
+        h0, s = x.h0, x.a.self
+        chg_d, d = new_data(x)
+        if x.a.tag("data_id") != "none":
+            v = x.a.data_id
+            return v != h0._data_id(s), v
+        if d is None:
+            return z3.BoolVal(False), h0._data_id(s)
+        v = calc_id(h0, x.T, d)
+        return And(chg_d, v != h0._data_id(s)), v
+
+    def group(x):
+        h0, s = x.h0, x.a.self
+        return h0.clones(x.T, h0._data_id(s))
+
+    def has_clones(x):
+        return x.h0.llen(group(x)) > 1
+
+    def whole_group(x):
+        return And(has_clones(x), z3.BoolVal(x.a.tag("with_clones") == "bool" and z3.is_true(x.a.with_clones)))
+
+    def is_target(x, o):
+        h0, s = x.h0, x.a.self
+        return If(whole_group(x), And(h0.mem(x.T, o), h0._data_id(o) == h0._data_id(s)), o == s)
+
+    def missing(x):
+        d_f = Not(And(x.a.data != VNONE, L.v_truthy(x.a.data))) if x.a.tag("data") != "none" else z3.BoolVal(True)
+        i_f = Not(And(x.a.data_id != VNONE, L.v_truthy(x.a.data_id))) if x.a.tag("data_id") != "none" else z3.BoolVal(True)
+        return And(d_f, i_f)
+
+    def ambiguous(x):
+        return And(has_clones(x), z3.BoolVal(x.a.tag("with_clones") == "none"))
+
+    def clash(x):
+        h0 = x.h0
+        chg, nid = new_id(x)
+        o = L.fresh("o", L.Ref)
+        i = L.fresh("i", L.I)
+        return And(chg, z3.Exists([o, i], And(is_target(x, o), h0.mem(x.T, o), 0 <= i, i < h0.clen(h0._parent(o)), h0.child(h0._parent(o), i) != o, h0._data_id(h0.child(h0._parent(o), i)) == nid)))
+
+    unchanged = lambda x: And(obs_unchanged_but_fresh(x), wf1(x))  # noqa: E731
+    c.raises("ValueError", when=missing, ensures=unchanged, props=("C13",))
+    c.raises("AmbiguousMatchError", when=lambda x: And(Not(missing(x)), ambiguous(x)), ensures=unchanged, props=("C13", "C09"))
+    c.raises("UniqueConstraintError", when=lambda x: And(Not(missing(x)), Not(ambiguous(x)), clash(x)), ensures=unchanged, props=("C03", "C13"))
+    c.may_raise("Exception", ensures=unchanged, props=("C13",), name="calc_data_id callback raises")
+
+    def post(x):
+        h0, h, s, T = x.h0, x.h, x.a.self, x.T
+        chg_d, d = new_data(x)
+        chg_i, nid = new_id(x)
+        o = L.fresh("o", L.Ref)
+        wc_true = x.a.tag("with_clones") == "bool" and z3.is_true(x.a.with_clones)
+        # which nodes get the new data: the whole group (with_clones), else self
+        gets_data = (lambda y: And(h0.mem(T, y), h0._data_id(y) == h0._data_id(s))) if wc_true else (lambda y: y == s)
+        cs = [
+            wf1(x),
+            ForAll([o], h._data_id(o) == If(And(chg_i, is_target(x, o)), nid, h0._data_id(o)), patterns=[h._data_id(o)]),
+            fields_same_except(x, tuple(f for f in NODE_FIELDS if f not in ("_data", "_data_id")) + TREE_FIELDS, []),
+            other_childlists_same(x, T),
+            # membership is unchanged
+            ForAll([o], h.mem(T, o) == h0.mem(T, o), patterns=[h._node_id(o)]) if False else True,
+        ]
+        if d is not None:
+            cs.append(ForAll([o], h._data(o) == If(And(chg_d, If(chg_i, is_target(x, o), gets_data(o))), d, h0._data(o)), patterns=[h._data(o)]))
+        else:
+            cs.append(ForAll([o], h._data(o) == h0._data(o), patterns=[h._data(o)]) if not z3.eq(h._data, h0._data) else z3.BoolVal(True))
+        return And(*cs)
+
+    c.ensures("the addressed node(s) carry the new data / data_id and are indexed under it; nothing else changed; wf", post)
+
+    def cpos_exit(x, o):
+        h0, s, T = x.h0, x.a.self, x.T
+        chg_i, nid = new_id(x)
+        nbd = h0._nodes_by_data_id(T)
+        base = If(h0.ddom(nbd, nid), h0.llen(h0.dlst(nbd, nid)), 0)
+        moved_group = base + h0.cpos(o)
+        single = If(o == s, base, If(And(h0._data_id(o) == h0._data_id(s), h0.cpos(o) > h0.cpos(s)), h0.cpos(o) - 1, h0.cpos(o)))
+        return If(chg_i, If(whole_group(x), If(is_target(x, o), moved_group, h0.cpos(o)), single), h0.cpos(o))
+
+    c.ghost_exit["cpos"] = cpos_exit
+
+    # ---- loop invariants (ordinals in source order)
+    def nid_now(x):
+        return x.v.new_data_id
+
+    def inv_outer(x):  # for n in (group | [self]): no sibling of the targets seen so far carries the new id
+        h0 = x.h0
+        it = x.it.z
+        j, i = L.fresh("j", L.I), L.fresh("i", L.I)
+        tj = x.h.litem(it, j)  # the iterated list may be the fresh literal [self]: read it in the current heap
+        sib = h0.litem(h0._children(h0._parent(tj)), i)
+        # one flat quantifier over (target index, sibling index); triggered by the sibling term
+        return ForAll([j, i], Implies(And(0 <= j, j < x.k, 0 <= i, i < h0.clen(h0._parent(tj))), Or(sib == tj, h0._data_id(sib) != nid_now(x))), patterns=[sib])
+
+    def inv_inner(x):
+        h0 = x.h0
+        n = x.v.n
+        return fa_int(0, x.k, lambda i: Or(h0.child(h0._parent(n), i) == n, h0._data_id(h0.child(h0._parent(n), i)) != nid_now(x)), lambda i: h0.litem(h0._children(h0._parent(n)), i))
+
+    def link_targets(x):
+        """every target is an element of the iterated list (at its clone position / at 0)"""
+        h0 = x.h0
+        it = x.it.z
+        o = L.fresh("o", L.Ref)
+        return And(Implies(Not(whole_group(x)), And(x.h.llen(it) == 1, x.h.litem(it, 0) == x.a.self)),
+                   Implies(whole_group(x), And(it == group(x), ForAll([o], Implies(And(h0.mem(x.T, o), h0._data_id(o) == h0._data_id(x.a.self)), And(0 <= h0.cpos(o), h0.cpos(o) < x.h.llen(it), x.h.litem(it, h0.cpos(o)) == o)), patterns=[h0.cpos(o)]))))
+
+    def no_clash_summary(x):
+        h0 = x.h0
+        o, i = L.fresh("o", L.Ref), L.fresh("i", L.I)
+        sib = h0.litem(h0._children(h0._parent(o)), i)
+        return ForAll([o, i], Implies(And(is_target(x, o), h0.mem(x.T, o), 0 <= i, i < h0.clen(h0._parent(o)), sib != o), h0._data_id(sib) != nid_now(x)), patterns=[sib])
+
+    c.loop(1).invariant = inv_outer
+    c.loop(1).modifies = ()
+    c.loop(1).exit_facts = [link_targets, no_clash_summary]
+    c.loop(2).invariant = inv_inner
+    c.loop(2).modifies = ()
+
+    def inv_assign(which):
+        def inv(x):
+            h0, h = x.h0, x.h
+            it = x.it.z
+            o = L.fresh("o", L.Ref)
+            j = L.fresh("j", L.I)
+            n = h0.llen(group(x))
+            in_prefix = lambda y: And(h0.mem(x.T, y), h0._data_id(y) == h0._data_id(x.a.self), h0.cpos(y) < x.k)  # noqa: E731
+            cs = [it == group(x), x.k <= n]
+            if which == "id+data":
+                cs.append(ForAll([o], h._data_id(o) == If(in_prefix(o), x.v.new_data_id, h0._data_id(o)), patterns=[h._data_id(o)]))
+                if x.v.has("new_data") and x.v.sv("new_data").tag != "none":
+                    cs.append(ForAll([o], h._data(o) == If(in_prefix(o), x.v.new_data, h0._data(o)), patterns=[h._data(o)]))
+            else:
+                cs.append(ForAll([o], h._data(o) == If(in_prefix(o), x.a.data, h0._data(o)), patterns=[h._data(o)]))
+            return And(*cs)
+        return inv
+
+    c.loop(3).invariant = inv_assign("id+data")
+    c.loop(3).modifies = ("_data_id", "_data")
+    c.loop(4).invariant = inv_assign("data")
+    c.loop(4).modifies = ("_data",)
